@@ -22,6 +22,8 @@ pub enum Disp {
     PlainOdd,
     /// a three-argument handler installed with SA_SIGINFO | SA_RESETHAND | SA_NODEFER
     InfoOdd,
+    /// a one-argument handler that can be switched out while it runs (a scheduling point inside)
+    PlainPausing,
     /// SIG_IGN / SIG_DFL stored with SA_SIGINFO in the flags (what C code recycling a struct sigaction produces)
     IgnoreInfoFlag,
     DefaultInfoFlag,
@@ -31,7 +33,7 @@ impl Disp {
     /// what chaining must do with it
     pub fn kind(self) -> Disp {
         match self {
-            Disp::PlainOdd => Disp::Plain,
+            Disp::PlainOdd | Disp::PlainPausing => Disp::Plain,
             Disp::InfoOdd => Disp::Info,
             Disp::IgnoreInfoFlag => Disp::Ignore,
             Disp::DefaultInfoFlag => Disp::Default,
@@ -51,6 +53,7 @@ pub fn set_disposition(sig: i32, d: Disp) {
                 sa.sa_sigaction = foreign_info as usize;
                 sa.sa_flags = libc::SA_SIGINFO;
             }
+            Disp::PlainPausing => sa.sa_sigaction = foreign_plain_pausing as usize,
             Disp::PlainOdd => {
                 sa.sa_sigaction = foreign_plain as usize;
                 sa.sa_flags = libc::SA_RESETHAND | libc::SA_NODEFER | libc::SA_ONSTACK | libc::SA_NOCLDSTOP;
@@ -74,6 +77,11 @@ pub fn set_disposition(sig: i32, d: Disp) {
 
 extern "C" fn foreign_plain(sig: libc::c_int) {
     sched::log("foreign_plain", sig as u64, 0);
+}
+
+extern "C" fn foreign_plain_pausing(sig: libc::c_int) {
+    sched::log("foreign_plain", sig as u64, 0);
+    sched::point("in_foreign_handler", sig as u64);
 }
 
 extern "C" fn foreign_plain2(sig: libc::c_int) {
@@ -832,6 +840,14 @@ fn check_registry(log: &[Ev], p: &RP, e: &Exec) -> Result<u64, String> {
                     return Err(format!("C02: actions ran out of registration order ({} before {})", ran[k - 1], t));
                 }
             }
+            // no action runs whose removal had returned - not even in a delivery that began before
+            for (t, at) in &d.acts {
+                if let Some(a) = acts.get(t) {
+                    if a.rm_ret != usize::MAX && *at > a.rm_ret {
+                        return Err(format!("C02: action {} was run after its removal had returned (by a delivery that had begun before)", t));
+                    }
+                }
+            }
             for (t, a) in &acts {
                 if a.sig != d.sig {
                     continue;
@@ -1124,12 +1140,14 @@ pub fn build_reg(p: RP) -> Scenario<Arc<RS>> {
     };
     Scenario {
         name: p.name.to_string(),
-        opts: Opts { stale_reads: p.stale, stale_depth: 3, max_spurious: 0, horizon: 20_000, log_ops: false, log_handler_ops: false, reduce: false, no_discipline: false, nest_value_t1: 0, post_points: false, no_race_check: false, start_points: false, endurance: 0 },
+        // C02 judges which actions a delivery ran: its executions go on past a release that came too
+        // early (C01's monitors would stop them there, in a class C02 does not own)
+        opts: Opts { stale_reads: p.stale, stale_depth: 3, max_spurious: 0, horizon: 20_000, log_ops: false, log_handler_ops: false, reduce: false, no_discipline: false, nest_value_t1: 0, post_points: false, no_race_check: p.prop == "C02", start_points: false, endurance: 0 },
         signals: vec![S1, S2],
         setup: Box::new(setup),
         threads,
         finish: Box::new(finish),
-        monitor: Some(Box::new(|| Box::new(SnapMon::default()) as Box<dyn Monitor>)),
+        monitor: if p.prop == "C02" { None } else { Some(Box::new(|| Box::new(SnapMon::default()) as Box<dyn Monitor>)) },
     }
 }
 
@@ -1448,6 +1466,8 @@ pub fn scenarios(prop: &str, tier: Tier) -> Vec<Item> {
                 p.pause_in_action = true;
                 v.push(item(build_reg(p), b(2, 3), "two removal calls for one action on two threads vs deliveries paused inside the action: when either call returns nothing is in progress and the captures are released"));
             }
+            // removal by dropping the owner, after two threads added the same signal to it at the same time
+            v.push(item(crate::propsb::c12::sched_part::build_n("owner_drop_after_two_threads_added_one_signal", 2, false, "C01"), b(2, 3), "two threads add the same signal to one iterator instance through handle clones while it is delivered; when the owner and all handles are gone no action of the instance runs any more"));
             // a signal of the forbidden list, hooked through the unchecked entry point and sent by software
             let mut p = rp("reg_unregister_vs_deliveries_sigfpe_unchecked", "C01");
             p.disps = vec![(libc::SIGFPE, Disp::Ignore), (S2, Disp::Ignore)];
@@ -1505,6 +1525,13 @@ pub fn scenarios(prop: &str, tier: Tier) -> Vec<Item> {
                 v.push(item(build_reg(p), Some(2), "two mutators on two signals, deliveries of both from two threads"));
             }
             v.push(item(build_reg_endurance("snapshot_delivery_off_cpu_endurance", "C02", 1_600_000), Some(0), "a delivery stalled (off the processor) inside an earlier action while a later action is removed: no action runs whose removal had returned; one forced schedule, 1.6 million barrier rounds"));
+            let mut p = rp("snapshot_overlapping_deliveries_vs_unregister", "C02");
+            p.pre = vec![Reg(S1, 1), Reg(S1, 2)];
+            p.mutators = vec![vec![Unreg(2)]];
+            p.deliverers = vec![vec![S1], vec![S1]];
+            p.nest = vec![S1];
+            p.pause_in_action = true;
+            v.push(item(build_reg(p), b(2, 3), "two deliveries of one signal in flight at once (paused inside their actions, one may finish while the other is still running) while a later action is removed"));
             let mut p = rp("snapshot_mixed_entry_points", "C02");
             p.pre = vec![RegInfo(S1, 1), Reg(S1, 2), RegInfo(S1, 3)];
             p.mutators = vec![vec![Reg(S1, 4), RegInfo(S1, 5), Unreg(2)]];
@@ -1570,6 +1597,13 @@ pub fn scenarios(prop: &str, tier: Tier) -> Vec<Item> {
                 p.nest = vec![libc::SIGURG];
                 v.push(item(build_reg(p), b(2, 3), "taken over from a handler installed with SA_RESETHAND|SA_NODEFER(|SA_ONSTACK): it is chained in every one of three deliveries and the library's handler stays installed without those flags"));
             }
+            let mut p = rp("chain_overlapping_deliveries", "C04");
+            p.disps = vec![(S1, Disp::PlainPausing), (S2, Disp::Plain)];
+            p.pre = vec![Reg(S1, 1)];
+            p.mutators = vec![vec![Reg(S1, 2)]];
+            p.deliverers = vec![vec![S1], vec![S1]];
+            p.nest = vec![S1];
+            v.push(item(build_reg(p), b(2, 3), "deliveries of one signal handled on two threads at once, switched out inside the pre-existing handler: each of them chains it exactly once"));
             let mut p = rp("chain_first_registrations_vs_unrelated_unregister", "C04");
             p.disps = vec![(S1, Disp::Plain), (S2, Disp::Plain), (libc::SIGURG, Disp::Plain)];
             p.pre = vec![Reg(S1, 1), Reg(S1, 2)];
@@ -1629,6 +1663,7 @@ pub fn scenarios(prop: &str, tier: Tier) -> Vec<Item> {
             p.mutators = vec![vec![RegRefused, Reg(S1, 2), RegRefused], vec![Reg(S2, 5), Unreg(5)]];
             p.deliverers = vec![vec![S1]];
             v.push(item(build_reg(p), b(2, 3), "an unchecked registration the OS refuses (error path of a first registration), before and after a successful one, vs another mutator and a delivery"));
+            v.push(item(crate::propsb::c12::sched_part::build_n("live_three_threads_add_one_signal", 3, false, "C18"), b(2, 3), "three threads add the same signal to one iterator instance while it is delivered: every call returns"));
             let mut p = rp("live_refused_registration_reentrant_drop", "C18");
             p.pre = vec![Reg(S1, 1)];
             p.mutators = vec![vec![RegRefusedGuard(1), Reg(S1, 2)], vec![Reg(S2, 5), Unreg(5)]];
